@@ -56,11 +56,13 @@ pub struct Ctx {
   pub regexes: HashMap<String, regex::Regex>,
   pub var_names: Vec<String>,
   pub emu: Emu,
+  /// a global utility with constraints: `matches: <id>` means its rule, then its constraints, all or nothing
+  pub global_cons: Option<(String, std::collections::BTreeMap<String, R>)>,
 }
 
 impl Ctx {
   pub fn new(lang: SupportLang) -> Self {
-    Ctx { lang, utils: HashMap::new(), patterns: HashMap::new(), regexes: HashMap::new(), var_names: vec![], emu: Emu::default() }
+    Ctx { lang, utils: HashMap::new(), patterns: HashMap::new(), regexes: HashMap::new(), var_names: vec![], emu: Emu::default(), global_cons: None }
   }
   pub fn prepare(&mut self, r: &R) -> Result<(), String> {
     let mut err = None;
@@ -288,7 +290,18 @@ fn eval_leaky<'a>(r: &R, n: &N<'a>, env: &Env<'a>, ctx: &Ctx, leaked: &mut Optio
     }
     R::Matches(u) => {
       let rule = ctx.utils.get(u)?;
-      eval_leaky(rule, n, env, ctx, leaked)
+      let mut e = eval_leaky(rule, n, env, ctx, leaked)?;
+      if let Some((id, cons)) = &ctx.global_cons {
+        if id == u {
+          // a failing constraint makes the utility fail as a whole: nothing of it survives
+          for (var, c) in cons {
+            if let Some(b) = e.single.get(var).cloned() {
+              e = eval(c, &b, &e, ctx)?;
+            }
+          }
+        }
+      }
+      Some(e)
     }
     R::Inside(x, s, _) => {
       let mut anc = vec![];
